@@ -510,6 +510,68 @@ def list_items(pkg, N, L):
     return [[pkg, N, L, a, b] for a in range(M) for b in range(M)]
 
 
+
+from .. import ref, lib
+
+
+def _list_queries(obj):
+    out = {'repr': repr(obj), 'tokenize': np.asarray(obj.tokenize()).tolist(), 'N': int(obj.N), 'weight': np.asarray(obj.weight()).tolist()}
+    if hasattr(obj, 'L'):
+        out['L'] = int(obj.L)
+        out['len'] = len(obj)
+        out['item0'] = repr(obj[0]) if obj.L else None
+        out['neg'] = repr(-obj)
+    return out
+
+
+def fn_live(items):
+    """item = [N, gi]: query round (repr, tokenize, N, L, len, weight, indexing, negation) -> in-place rotate_by /
+    masked rotate_by / transform_by -> query round on the SAME PauliList / Pauli / PauliPolynomial object, compared
+    with a fresh object built from its arrays (no stale per-object cache); printing and tokens must also parse back
+    to the rotated operators."""
+    from ..core import V
+    n = nt = 0
+    viol = []
+    for N, gi in items:
+        G = ref.all_g(N)
+        g = G[gi]
+        Gs = np.concatenate([G] * 4)[::3]
+        Ps = np.repeat(np.arange(4), len(G))[::3]
+        for p in (0, 2):
+            gen = lib.P(g, p)
+            ops = [('rotate_by', lambda o: o.rotate_by(gen))]
+            if N >= 2:
+                mb = np.zeros(N, dtype=bool)
+                mb[N - 1] = True
+                g1 = lib.P(g[-2:], p)
+                ops.append(('rotate_by-mask', lambda o: o.rotate_by(g1, mask=mb.copy())))
+            M = lib.pc.clifford_rotation_map(lib.P(g, p))
+            ops.append(('transform_by', lambda o: o.transform_by(M)))
+            for opname, op in ops:
+                for cls, mk in (('PauliList', lambda: lib.PL(Gs, Ps)), ('Pauli', lambda: lib.P(Gs[(gi * 7 + 3) % len(Gs)], Ps[(gi * 7 + 3) % len(Gs)])),
+                                ('PauliPolynomial', lambda: lib.POLY(Gs, Ps, np.arange(len(Gs)) + 0.5))):
+                    obj = mk()
+                    _list_queries(obj)
+                    op(obj)
+                    if cls == 'Pauli':
+                        fresh = lib.P(np.array(obj.g), int(obj.p))
+                    elif cls == 'PauliList':
+                        fresh = lib.PL(np.array(obj.gs), np.array(obj.ps))
+                    else:
+                        fresh = lib.POLY(np.array(obj.gs), np.array(obj.ps), np.array(obj.cs))
+                    q1, q2 = _list_queries(obj), _list_queries(fresh)
+                    n += len(q1)
+                    nt += 1
+                    for k in q2:
+                        if q1[k] != q2[k]:
+                            viol.append(V('C20/py/live/%s/%s/stale-after-%s' % (cls, k, opname), [N, gi], '%s of a %s that had been queried before and then changed by %s(%s) differs from the same query on a fresh object with identical arrays' % (k, cls, opname, ref.g_to_str(g, p))))
+                    # tokens parse back to the current operators
+                    if cls == 'PauliList':
+                        back = lib.pc.paulis(obj.tokenize())
+                        if (np.asarray(back.gs) != np.asarray(obj.gs)).any() or (np.asarray(back.ps) % 4 != np.asarray(obj.ps) % 4).any():
+                            viol.append(V('C20/py/live/PauliList/token-roundtrip-after-%s' % opname, [N, gi], 'tokenize -> parse after %s does not return the current list' % opname))
+    return {'n': n, 'nt': nt, 'viol': viol}
+
 def legs(tier):
     quick = tier == 'quick'
     out = []
@@ -538,4 +600,6 @@ def legs(tier):
         titems += list_items('torch', N, L)
     out.append(Leg('lists_torch', fn_lists, titems, chunk=4, timeout=3000,
                    bound='torchclifford: all lists for (N,L) in %s; negative slice steps skipped (torch refuses them)' % (tl,)))
+    out.append(Leg('live_histories', fn_live, [[N, gi] for N in (1, 2) for gi in range(4 ** N)] + [[3, gi] for gi in range(0, 64, 5)], chunk=2,
+                   bound='query -> in-place rotate_by / masked rotate_by / transform_by -> query on one live Pauli / PauliList / PauliPolynomial vs a fresh object from its arrays; all generators N<=2, every 5th at N=3'))
     return out
